@@ -109,7 +109,9 @@ class Vector(BaseGridder):
             raise ValueError(
                 "Weights must be a tuple of arrays. {} given.".format(type(weights))
             )
-        coordinates, data, weights = check_fit_input(coordinates, data, weights)
+        coordinates, data, weights = check_fit_input(
+            coordinates, data, weights, unpack=False
+        )
         self.region_ = get_region(coordinates[:2])
         for estimator, data_comp, weight_comp in zip(self.components, data, weights):
             estimator.fit(coordinates, data_comp, weight_comp)
